@@ -236,8 +236,18 @@ func (g *Gen) alphabet0(norm string, t reflect.Type) []Val {
 				return s.Interface()
 			}
 		}
-		return []Val{vf("slice:0", mk()), vf("slice:1", mk(1)), vf("slice:[rich,alt]", mk(1, 2)), vf("slice:[alt,rich]", mk(2, 1)),
+		out := []Val{vf("slice:0", mk()), vf("slice:1", mk(1)), vf("slice:[rich,alt]", mk(1, 2)), vf("slice:[alt,rich]", mk(2, 1)),
 			vf("slice:[alt]", mk(2)), vf("slice:[sparse,rich]", mk(0, 1)), vf("slice:[rich,sparse]", mk(1, 0)), vf("slice:[rich,rich]", mk(1, 1))}
+		// element-COUNT boundaries: both sides of the one-byte VarInt count (127/128), or the documented maximum of
+		// the collection where the protocol bounds it (hooks.go sliceCounts); elements alternate rich/alt
+		for _, n := range sliceCountsFor(g.Cell, g.name+"."+norm) {
+			which := make([]int, n)
+			for i := range which {
+				which[i] = 1 + i%2
+			}
+			out = append(out, vf(fmt.Sprintf("slice:count%d", n), mk(which...)))
+		}
+		return out
 	}
 	return defaultAlphabet(g.Cell, t)
 }
